@@ -885,6 +885,28 @@ def murmur_ref(vg, which, state, blocks, tail, n, r):
 
 
 def rule_murmur_vg(prog, rep, fname, which, rid):
+    """the comparison below, once per outcome of every address-dependent condition the function contains (an alignment test of
+    the input pointer): the published algorithm does not depend on where the key is stored, so each combination must match"""
+    from .valgraph import NeedChoice
+
+    def explore(choices):
+        try:
+            _murmur_vg_once(prog, rep, fname, which, rid, choices)
+        except NeedChoice as e:
+            if len(choices) >= 3:
+                rep.broken.append('%s: more than 3 address-dependent conditions' % fname)
+                return
+            rep.notes.setdefault('address_dependent_conditions', {}).setdefault(fname, [])
+            if e.key not in rep.notes['address_dependent_conditions'][fname]:
+                rep.notes['address_dependent_conditions'][fname].append(e.key)
+            for val in (True, False):
+                c2 = dict(choices)
+                c2[e.key] = val
+                explore(c2)
+    explore({})
+
+
+def _murmur_vg_once(prog, rep, fname, which, rid, choices):
     f = prog.need_func(fname)
     parts = _top_split(f)
     rep.broken_if(parts is None, '%s: expected exactly one block loop at the top level' % fname)
@@ -913,6 +935,7 @@ def rule_murmur_vg(prog, rep, fname, which, rid):
     vg = VG()
     try:
         fw = Forward(prog, f, vg)
+        fw.choices = choices
         env0 = pre_env(fw, vg)
         n, data = vg.sym(nname), vg.sym(dname)
         # loop bound: a block counter running to n / B, or a block pointer running from the data to data + B * (n / B)
@@ -991,6 +1014,7 @@ def rule_murmur_vg(prog, rep, fname, which, rid):
         rep.instance(rid)
         try:
             fw = Forward(prog, f, vg, residue=(nname, B, r))
+            fw.choices = choices
             env = pre_env(fw, vg)
             n, data = vg.sym(nname), vg.sym(dname)
             ins = {}
